@@ -26,7 +26,7 @@ const rtName = "verifsimrt_rt"
 const rtPath = "verifsimrt"
 
 type stats struct {
-	Files, SyncImports, GoStmts, Recvs, Selects, Sends, Renames, MapRanges int
+	Files, SyncImports, GoStmts, Recvs, Selects, Sends, Renames, MapRanges, PipeSelectors int
 }
 
 var st stats
@@ -80,6 +80,26 @@ func unparen(e ast.Expr) ast.Expr {
 
 // rewriteExpr rewrites receive expressions inside e (not descending into
 // function literals' statements here; those are handled by rewriteStmt).
+// pipeNames: selectors of package io that are replaced by the simulated pipe
+// in pkg/blobstore/grpcclients (S7).
+var pipeNames = map[string]bool{"Pipe": true, "PipeReader": true, "PipeWriter": true}
+
+func (r *rewriter) rewritePipeSelectors(f *ast.File) {
+	if !strings.Contains(r.file, "pkg/blobstore/grpcclients/") {
+		return
+	}
+	ast.Inspect(f, func(n ast.Node) bool {
+		if se, ok := n.(*ast.SelectorExpr); ok {
+			if id, ok := se.X.(*ast.Ident); ok && id.Name == "io" && pipeNames[se.Sel.Name] {
+				id.Name = rtName
+				st.PipeSelectors++
+				r.changed, r.needRT = true, true
+			}
+		}
+		return true
+	})
+}
+
 func (r *rewriter) rewriteExpr(e ast.Expr) ast.Expr {
 	if e == nil {
 		return nil
@@ -359,6 +379,7 @@ func processFile(fset *token.FileSet, path string, renames []renameRule) ([]byte
 			st.SyncImports++
 		}
 	}
+	r.rewritePipeSelectors(f)
 	// S2/S3
 	for _, d := range f.Decls {
 		switch v := d.(type) {
